@@ -71,6 +71,7 @@ def check_pivots(c):
     shape = c['shape']
     D, E = dense_mant(Y, c.get('scales'))
     nD = float(np.linalg.norm(D))
+    nB = float(np.linalg.norm(ref.dense_abs([G * 2.0 ** (-(c.get('scales') or [0] * d)[k]) for k, G in enumerate(Y)])))    # magnitude before cancellation
     rin = [G.shape[2] for G in Y[:-1]]
     tags = ['pat=' + c['pat'], 'scaled' if c.get('scales') else 'unscaled']
     deficient = c['pat'] in ('dup', 'zslice', 'zero') or any(rin[k] > min(np.prod(shape[:k + 1]), np.prod(shape[k + 1:])) for k in range(d - 1))
@@ -98,7 +99,7 @@ def check_pivots(c):
             sh = p - E
             if abs(sh) < 1000:
                 dev = float(np.linalg.norm(Dz * 2.0 ** sh - D))
-                res.check(dev <= 1e-11 * max(nD, 1e-300) + (1e-290 if nD == 0 else 0), 'same', case,
+                res.check(dev <= 1e-11 * nD + 1e-13 * nB, 'same', case,
                           lambda: 'tensor changed: |Z*2^p - Y| = %.3e, |Y| = %.3e' % (dev, nD), tags + ['same'])
             else:
                 res.check(nD == 0, 'same', case, 'exponent off by more than 2^1000', tags + ['same'])
@@ -111,7 +112,7 @@ def check_pivots(c):
             mxk = float(np.abs(Z[k]).max())
             npv = float(np.linalg.norm(Z[k] / mxk)) * mxk if mxk > 0 else 0.0
             if abs(sh) < 1000:
-                res.check(abs(npv * 2.0 ** sh - nD) <= 1e-11 * max(nD, 1e-300), 'norm', case,
+                res.check(abs(npv * 2.0 ** sh - nD) <= 1e-11 * nD + 1e-13 * nB, 'norm', case,
                           lambda: 'pivot core norm %.6e * 2^%d vs tensor norm %.6e' % (npv, sh, nD), tags)
             rz = [G.shape[2] for G in Z[:-1]]
             cap = [min(int(np.prod(shape[:j + 1])), int(np.prod(shape[j + 1:]))) for j in range(d - 1)]
@@ -121,10 +122,11 @@ def check_pivots(c):
                 lim = int(np.prod(shape[:j + 1])) if j < k else int(np.prod(shape[j + 1:]))
                 okr = okr and rz[j] <= max(lim, 1)
             res.check(okr, 'ranks', case, lambda: 'ranks %s from %s (pivot %d)' % (rz, rin, k), tags)
-            if stab and nD > 0:
+            if stab and nD > 1e-10 * nB:
                 mx = float(np.abs(Z[k]).max())
-                res.check(1.0 <= mx < 2.0 or d == 1, 'stab.range', case,
-                          lambda: 'max modulus of the pivot core %.6g not in [1, 2)' % mx, tags + ['stab'])
+                # [1, 2) up to the rounding of floor(log2(.)) at a power-of-two boundary (1.9999999999999998 -> mantissa 1 - 1ulp)
+                res.check(1.0 - 1e-12 <= mx <= 2.0 or d == 1, 'stab.range', case,
+                          lambda: 'max modulus of the pivot core %.17g not in [1, 2)' % mx, tags + ['stab'])
                 res.check(all(np.abs(G).max() <= 2.0 * max(1.0, np.sqrt(G.shape[0] * G.shape[1])) for G in Z), 'stab.moderate', case,
                           'entries of Z are not of moderate size', tags + ['stab'])
             if deficient or any(a < b for a, b in zip(rz, rin)):
@@ -160,6 +162,7 @@ def check_graph(c):
     shape = c['shape']
     D, E = dense_mant(Y0, c.get('scales'))
     nD = float(np.linalg.norm(D))
+    nB = float(np.linalg.norm(ref.dense_abs([G * 2.0 ** (-(c.get('scales') or [0] * d)[k]) for k, G in enumerate(Y0)])))
     scl = 2.0 ** (-E)
     depth = c['depth']
     tags = ['pat=' + c['pat']]
@@ -199,7 +202,7 @@ def check_graph(c):
                 if not res.check(why is None and ref.finite(Z), 'wellformed', case, lambda: str(why), tags):
                     continue
                 dev = float(np.linalg.norm(ref.dense(Z) * scl - D)) if abs(E) < 1000 else 0.0
-                res.check(dev <= 1e-11 * max(nD, 1e-300) * (1 + len(hist)), 'same', case, lambda: 'tensor changed by %.3e' % dev, tags + ['same'])
+                res.check(dev <= (1e-11 * nD + 1e-13 * nB) * (1 + len(hist)), 'same', case, lambda: 'tensor changed by %.3e' % dev, tags + ['same'])
                 g = lgram(Z[i]) if side == 'L' else rgram(Z[i])
                 res.check(g <= 1e-12, 'step.orth', case, lambda: 'processed core not orthonormal: %.2e' % g, tags + ['orth'])
                 if not inplace:
